@@ -27,7 +27,7 @@ from vf.gen import units as G
 from vf.oracle import resolve as R
 
 MOD = "vf.checks.c11"
-ROUTES = ["pickle2", "pickle3", "pickle4", "pickle5", "copy.copy", "copy.deepcopy", ".copy()", "nested-pickle", "nested-deepcopy", "savetxt", "str-reparse",
+ROUTES = ["pickle2", "pickle3", "pickle4", "pickle5", "copy.copy", "copy.deepcopy", ".copy()", "nested-pickle", "nested-deepcopy", "savetxt", "savetxt-header-footer", "savetxt-comma-two-columns", "savetxt-footer-one-word", "str-reparse",
           "unit-pickle", "unit-deepcopy", "unit-copy-deep", "unit-copy-shallow", "registry-json"]
 SPECIAL_UNITS = ["degree", "rad", "arcmin", "degC", "degF", "K", "delta_degC", "mdegC", "dB", "Np", "lat", "lon", "percent", "dimensionless", "code_length", "kcode_length", "tX",
                  "pc", "kpc", "code_length*pc", "code_mass/code_length**3", "G", "statV", "T", "mol", "Msun", "J/K", "km/s", "erg/s/cm**2"]
@@ -90,11 +90,28 @@ def persist(obj, route, tmpdir):
     if route == "nested-deepcopy":
         box = [{"q": obj}, obj.units]
         return copy.deepcopy(box)[0]["q"], "array"
-    if route == "savetxt":
+    if route.startswith("savetxt"):
+        # the documented keyword arguments of savetxt (header / footer comment lines, delimiter, several columns with
+        # units of their own) must not disturb the unit header loadtxt reads back
+        from unyt import unyt_array as _ua
+
         path = os.path.join(tmpdir, "c11.txt")
         arr = np.atleast_1d(obj)
-        savetxt(path, [arr])
-        back = loadtxt(path)
+        cols, skw, lkw = [arr], {}, {}
+        if "header-footer" in route:
+            skw = {"header": "run 7 of the series", "footer": "end of data"}
+        if "footer-one-word" in route:
+            skw = {"footer": "checksum-0"}
+        if "comma" in route:
+            skw["delimiter"] = lkw["delimiter"] = ","
+        if "two-columns" in route:
+            cols = [arr, _ua(np.arange(arr.size, dtype=float) + 0.5, "km/s")]
+        savetxt(path, cols, **skw)
+        back = loadtxt(path, **lkw)
+        if "two-columns" in route:
+            second = back[1]
+            if str(second.units) != "km/s" or not np.array_equal(np.atleast_1d(np.asarray(second)), np.arange(arr.size, dtype=float) + 0.5):
+                return second, "array-text"  # reported as the restored object: its unit / numbers differ from the original's
         back = back[0] if isinstance(back, (list, tuple)) else back
         return back, "array-text"
     if route == "str-reparse":
@@ -232,7 +249,7 @@ def judge(c, part):
         q = unyt_quantity(arr[0], u, name=c["name"]) if c["scalar"] else unyt_array(arr, u, name=c["name"])
         return q
 
-    if c["route"] == "savetxt" and c["reg"] != "default":
+    if c["route"].startswith("savetxt") and c["reg"] != "default":
         part.count("savetxt with a custom registry: the text format cannot carry the registry (by design), not exercised")
         return out
     orig = build()
